@@ -55,11 +55,20 @@ def run(ctx):
     nsets, nlim = (25, 30) if ctx.tier == "quick" else (400, 80)
     ob_glue = "Spline.integrate glue = model integrateExt at Float on the recorded FITPACK values (bit-equal)"
     ob_contract = "FITPACK contract spot checks (knot interpolation 1e-12, splint = quad(splev) 1e-9)"
-    for _ in range(nsets):
-        xs, ys = hyd.gen_knots(ctx.rng)
+    # one-knot-at-a-time edits of a profile, all alive in one process (a user moving a knot from -2 mm to -1 mm, or a value
+    # from 0.2 to 0.25, and plotting again): each must be the spline of ITS knots, whatever was built before it
+    a_, b_ = float(ctx.rng.randint(-600, -300)), float(ctx.rng.randint(-250, -100))
+    v_ = [round(ctx.rng.uniform(0.1, 0.2), 2), round(ctx.rng.uniform(0.2, 0.3), 2), 0.35, round(ctx.rng.uniform(0.5, 0.8), 2), 0.8]
+    twins = [([a_, b_, -2.0, 100.0, 250.0], v_), ([a_, b_, -1.0, 100.0, 250.0], v_), ([a_, b_, 0.0, 100.0, 250.0], v_),
+             ([a_, b_, -1.0, 100.0, 250.0], v_[:2] + [0.36] + v_[3:]), ([a_, b_, -1.0, 100.0, 256.0], v_)]
+    keep_alive = []
+    for i_set in range(nsets + len(twins)):
+        xs, ys = twins[i_set] if i_set < len(twins) else hyd.gen_knots(ctx.rng)
+        xs, ys = list(xs), list(ys)
         inp0 = {"zeta_knots_mm": xs, "sy_knots": ys}
         try:
             sy = sym.SplineSpecificYield(list(xs), list(ys))
+            keep_alive.append(sy)
             float(sy(xs[0]))
         except Exception as e:  # noqa
             ctx.case(("c14", tuple(xs), tuple(ys)), True)
